@@ -73,6 +73,9 @@ impl Opt {
     /// the options that differ in WHAT a level does (stop / continue x nothing / predicate / type); the remaining ones
     /// are other spellings of these
     pub const CORE: [Opt; 6] = [Opt::Empty, Opt::Pred, Opt::Dots, Opt::PredDots, Opt::Type, Opt::TypeDots];
+    /// three simultaneous deviations (thorough tier) range over one option per effect: stop with nothing / with a
+    /// predicate / with a type, continue with a predicate
+    pub const FOUR: [Opt; 4] = [Opt::Empty, Opt::Pred, Opt::PredDots, Opt::Type];
     fn continues(self) -> bool {
         matches!(self, Opt::Absent | Opt::Dots | Opt::PredDots | Opt::DotsPred | Opt::TypeDots)
     }
@@ -561,7 +564,13 @@ fn gen(ch: &mut Ch, cfgs: &[Config], plan: &Plan) -> Option<Case> {
             let avail = n - start - still_needed;
             let p = start + ch.pick(avail);
             // quick tier: several deviations at once range over the core options, a single deviation over all of them
-            opts[p] = if k >= 2 && plan.max_dev <= 2 { *ch.of(&Opt::CORE) } else { Opt::ALL[1 + ch.pick(Opt::ALL.len() - 1)] };
+            opts[p] = if k >= 3 {
+                *ch.of(&Opt::FOUR)
+            } else if k >= 2 && plan.max_dev <= 2 {
+                *ch.of(&Opt::CORE)
+            } else {
+                Opt::ALL[1 + ch.pick(Opt::ALL.len() - 1)]
+            };
             start = p + 1;
         }
         dev = k;
@@ -692,7 +701,7 @@ fn describe(cfg: &Config, c: &Case) -> String {
 
 pub fn run(ctx: &Ctx, rep: &mut Report) {
     let thorough = ctx.tier.is_thorough();
-    rep.rule = "terminal state = (probe configuration [derived trait set x struct/enum], entry point, optional key placement, one bound option out of {absent, bound(), bound(T: M_l), bound(..), bound(T: M_l, ..), bound(W_l<T>), bound(.., T: M_l), bound(W_l<u8>)} per priority level; Default configurations also with an explicit value on the probed field, Debug configurations also with #[debug(transparent)] on it incl. one slot per recognised comparison helper attribute at each placement); bounded by the number of non-absent levels, plus full products over {absent, bound(P), bound(P, ..)} for the small configurations; distinct by program text; non-trivial = at least one level non-absent".into();
+    rep.rule = "terminal state = (probe configuration [derived trait set x struct/enum], entry point, optional key placement, one bound option out of {absent, bound(), bound(T: M_l), bound(..), bound(T: M_l, ..), bound(W_l<T>), bound(.., T: M_l), bound(W_l<u8>)} per priority level; Default configurations also with an explicit value on the probed field, Debug configurations also with #[debug(transparent)] on it incl. one slot per recognised comparison helper attribute at each placement); bounded by the number of non-absent levels (quick: one level over all eight spellings, two over the six core options; thorough: one or two levels over all eight spellings, three over {bound(), bound(P), bound(P, ..), bound(Type)}), plus full products over {absent, bound(P), bound(P, ..)} for the small configurations; distinct by program text; non-trivial = at least one level non-absent".into();
     rep.assumptions = vec![
         "reference ref_bounds of DESIGN.md 5/C04 (from doc/derive_ex.md 'Specify trait bound'); interpretations I1, I5 (sets of predicates)".into(),
         "the textual form of a default / Type bound is calibrated per trait on `struct C<T>(F1<T>)`; its semantic adequacy is C03's business".into(),
@@ -827,6 +836,13 @@ pub fn run(ctx: &Ctx, rep: &mut Report) {
     if ctx.replay.is_some() {
         process(rep, &cases, &mut distinct_where, &mut conform_inputs);
     } else {
+        if std::env::var("DX_COUNT_ONLY").is_ok() {
+            // sizing aid: number of terminal states of this tier without evaluating them
+            let mut n = 0u64;
+            let st = explore(|ch| gen(ch, &cfgs, &plan), |_, _c: Case| n += 1);
+            println!("C04 {} terminal states={} states={}", ctx.tier.name(), n, st.states);
+            std::process::exit(0);
+        }
         let mut buf: Vec<Case> = Vec::new();
         let mut pending: Vec<Vec<Case>> = Vec::new();
         let st = explore(|ch| gen(ch, &cfgs, &plan), |_, c| {
